@@ -41,6 +41,12 @@ def main():
     path, cto, pto = sys.argv[1], float(sys.argv[2]), float(sys.argv[3])
     from crosshair.core_and_libs import analyze_function, run_checkables, MessageType
     from crosshair.options import AnalysisOptionSet, AnalysisKind
+    import crosshair.core as _core
+    # CrossHair may "short-circuit" a callee that carries a contract (its own model of builtin hash() does):
+    # it forks into "skip the body and return an unconstrained value" and "call into it".  With Tree.__hash__ the
+    # skipped branch always dies (a symbolic __hash__ result is a TypeError), doubling the work at every hash()
+    # call.  Always calling into the real function removes only that alternative branch.
+    _core.ShortCircuitingContext.make_interceptor = lambda self, original: original
     spec = importlib.util.spec_from_file_location("vcond_" + os.path.basename(path)[:-3].replace("-", "_"), path)
     mod = importlib.util.module_from_spec(spec)
     sys.modules[spec.name] = mod
